@@ -144,16 +144,10 @@ def r1_tables(ctx):
             ok = bool(ws) and all(ld.dominated_by_edges(w, edges) for w in ws)
             r.check(ok, 'range|' + field, 'src/frame/settings.rs', '%s is stored only for values 0 and 1' % field)
         ws = writes('initial_window_size')
-        edges = core.edges_where(F, ld, cmp_edges(None, 2147483647), lambda l: l is False)
-        subj = [core.resolve_switch(F, ld, a).subject[1] for a, b in edges]
-        r.check(bool(ws) and bool(edges) and all(ld.dominated_by_edges(w, edges) for w in ws) and all(s == 'Gt' for s in subj), 'range|initial_window_size', 'src/frame/settings.rs',
-                'initial_window_size is stored only when !(val > 2^31-1)')
-        ws = writes('max_frame_size')
-        e1 = core.edges_where(F, ld, cmp_edges(None, 16384), lambda l: l is True)
-        e2 = core.edges_where(F, ld, cmp_edges(None, 16777215), lambda l: l is True)
-        ops = [core.resolve_switch(F, ld, a).subject[1] for a, b in e1 + e2]
-        r.check(bool(ws) and bool(e1) and bool(e2) and all(ld.dominated_by_edges(w, e1) and ld.dominated_by_edges(w, e2) for w in ws) and all(o == 'Le' for o in ops),
-                'range|max_frame_size', 'src/frame/settings.rs', 'max_frame_size is stored only when 16384 <= val <= 2^24-1')
+        cons = [core.order_constraint(F, ld, w, 2147483647) for w in ws]
+        r.check(bool(ws) and all(c[0] == frozenset(['lt', 'eq']) for c in cons), 'range|initial_window_size', 'src/frame/settings.rs',
+                'initial_window_size is stored only when val <= 2^31-1 (orderings allowed at the store: %s)' % [sorted(c[0]) for c in cons])
+        max_frame_size_range(r, F)
         # payload length: multiple of 6, ACK must be empty
         rems = [rv for bi, si, pl, rv, ln in ld.stmts() if rv[0] == 'bin' and rv[1] == 'Rem' and core.op_const(rv[3]) and core.op_const(rv[3])[0] == 6]
         r.check(bool(rems), 'len|settings', 'src/frame/settings.rs', 'Settings::load tests payload.len() % 6')
@@ -297,6 +291,21 @@ def r2_head(ctx):
         # masks the reserved bit with STREAM_ID_MASK
         consts = [c for bi, si, pl, rv, ln in sidp.stmts() for c in core.consts_in(sidp.expr_of_rvalue(rv))]
         r.check(any(c[1] == 2147483648 for c in consts), 'parse|mask', sidp.file, 'StreamId::parse masks the reserved bit (STREAM_ID_MASK)')
+
+
+def max_frame_size_range(r, F):
+    ld = F.fn('frame::settings::Settings::load')
+    if not ld:
+        r.bad('range|max_frame_size|anchor', '', 'Settings::load not found')
+        return
+    ws = [bi for bi, si, pl, rv, ln in ld.stmts() if core.place_fields(pl)[-1:] == [('frame::settings::Settings', 'max_frame_size')]]
+    lo = [core.order_constraint(F, ld, w, 16384) for w in ws]
+    hi = [core.order_constraint(F, ld, w, 16777215) for w in ws]
+    ok = bool(ws) and all(c[0] == frozenset(['eq', 'gt']) for c in lo) and all(c[0] == frozenset(['lt', 'eq']) for c in hi)
+    r.check(ok, 'range|max_frame_size', 'src/frame/settings.rs',
+            'a received SETTINGS_MAX_FRAME_SIZE is stored only when 16384 <= val <= 2^24-1 (at the store: val vs 16384 in %s, val vs 2^24-1 in %s)%s' % (
+                [sorted(c[0]) for c in lo], [sorted(c[0]) for c in hi],
+                '' if ok else ' — a smaller value (0) makes the writer emit empty CONTINUATION / DATA frames for ever; a larger one trips the codec assert'))
 
 
 def r3_send_size(ctx):
